@@ -486,6 +486,8 @@ func bytesRepeat(b byte, n int) []byte {
 	return s
 }
 
+func init() { register("C01", hostC01) }
+
 func hostC01(o *out, replay string) {
 	if replay != "" {
 		_, m := kvLine(replay)
